@@ -158,6 +158,8 @@ class StoreWorld(WorldBase):
         cfgmap = fmt != 'zip_pickle' and ch.chance(0.5)
         pool = LABELS_EXT if (fmt != 'sqlite' and ch.chance(0.15)) else LABELS
         labels = pool[:n] if ch.chance(0.5) else ch.sample(pool, n)
+        if fmt != 'sqlite' and labels and ch.chance(0.1):
+            labels[ch.randint(0, len(labels) - 1)] = ''  # the empty string is a label too (a member named by its extension alone)
         int_labels = fmt != 'zip_pickle' and ch.chance(0.12)
         if int_labels:
             # labels that are not strings, stored through a label encoder / decoder
@@ -221,6 +223,9 @@ class StoreWorld(WorldBase):
         self._open_bus(fid, cfg['max_persist'], h=None, op={'op': 'setup'})
 
     def teardown(self):
+        if getattr(self, '_orig_zip_read', None) is not None:
+            import zipfile
+            zipfile.ZipFile.read = self._orig_zip_read
         sx.uninstall(getattr(self, '_saved_executors', []))
         os.path.getmtime = self._orig_getmtime
         os.path.exists = self._orig_exists
@@ -386,10 +391,10 @@ class StoreWorld(WorldBase):
         f = self.files[fid]
         ev = ch.weighted([('touch', 2), ('rewrite_same', 2), ('rewrite_other', 3), ('replace_older', 2), ('truncate', 1.5),
                           ('delete', 1.5), ('delete_recreate', 1), ('restore', 5), ('replace_same_mtime', 1),
-                          ('arm_getmtime_oserror', 0.7), ('arm_vanish', 0.7)])
+                          ('arm_getmtime_oserror', 0.7), ('arm_vanish', 0.7), ('arm_read_error', 3.0 if f.fmt.startswith('zip') else 0)])
         op = {'op': 'fs', 'fid': fid, 'ev': ev, 'dt': ch.randint(1, 100)}
         if ev.startswith('arm_'):
-            op['nth'] = ch.weighted([(1, 5), (2, 3), (3, 2)])  # which mtime check of the next operation fails (chunked reads re-check)
+            op['nth'] = ch.weighted([(1, 5), (2, 3), (3, 2)]) if ev != 'arm_read_error' else ch.weighted([(1, 2), (2, 5), (3, 3)])  # which check / member read of the next operation fails
         return op
 
     def _pick_bus(self, ch, buses):
@@ -556,6 +561,10 @@ class StoreWorld(WorldBase):
             self.armed = 'vanish'
             self.fault('armed-vanish-between-exists-and-getmtime')
             return 'armed'
+        if ev == 'arm_read_error':
+            self.armed = 'readerror'
+            self.fault('armed-read-error-inside-the-archive')
+            return 'armed'
         exists = f.cur is not None
         if ev not in ('touch', 'restore'):
             f.cver = max(f.cver, getattr(self, '_cver_max', 0)) + 1
@@ -619,6 +628,27 @@ class StoreWorld(WorldBase):
         state = {'fired': False, 'n': 0}
         nth = getattr(self, 'armed_nth', 1)
 
+        if kind == 'readerror':
+            # a disk error while the n-th member of the archive is read (the file itself is intact and unchanged)
+            import zipfile
+            orig_read = zipfile.ZipFile.read
+            self._orig_zip_read = orig_read
+
+            def zread(zself, name, *a, **k):
+                if not state['fired'] and os.path.abspath(str(zself.filename)) == os.path.abspath(f.path):
+                    state['n'] += 1
+                    if state['n'] >= nth:
+                        state['fired'] = True
+                        zipfile.ZipFile.read = orig_read
+                        world.fault('fired-read-error')
+                        if nth > 1:
+                            world.probe('read-failed-after-earlier-members-were-read')
+                        raise OSError(5, 'simulated I/O error reading an archive member')
+                return orig_read(zself, name, *a, **k)
+            zipfile.ZipFile.read = zread
+            self._armed_state = state
+            return
+
         def getmtime(p):
             if not state['fired'] and os.path.abspath(p) == os.path.abspath(f.path):
                 state['n'] += 1
@@ -638,6 +668,10 @@ class StoreWorld(WorldBase):
 
     def _disarm(self):
         os.path.getmtime = self._orig_getmtime
+        if getattr(self, '_orig_zip_read', None) is not None:
+            import zipfile
+            zipfile.ZipFile.read = self._orig_zip_read
+            self._orig_zip_read = None
         st = getattr(self, '_armed_state', None)
         self._armed_state = None
         return bool(st and st['fired'])
@@ -1170,6 +1204,8 @@ class StoreWorld(WorldBase):
                 self.stats['export-config:' + cform] += 1
             if fmt == 'sqlite' and any(s['cdepth'] == 1 and any(not isinstance(c, str) for c in s['columns']) for s in specs):
                 return 'skip'
+            if fmt == 'sqlite' and any(l == '' for l in labs):
+                return 'skip'  # an empty table name is outside what SQLite accepts
         else:
             cfg = self._store_config(specs, False, fmt)
         nf = SimFile(os.path.join(self.dir, f'store{op["fid"]}' + EXT[fmt]), fmt)
